@@ -116,3 +116,48 @@ def corpus_assemblies(max_items=1500):
         for i in range(0, min(len(asm), max_items), 300):
             res.append(asm[i:i + 300])
     return res
+
+
+def pattern_evm_differential(chain, rnd, extra=40):
+    """observation / Search for part 3: stack programs containing each peephole window, assembled with and
+    without optimize_assembly, executed on the EVM; returns (n_programs, first difference or None)."""
+    import copy
+
+    from vyper.evm.assembler import assembly_to_evm
+    from vyper.evm.assembler.optimizer import optimize_assembly
+    pure = {"DUP1", "DUP2", "DUP3", "SWAP1", "SWAP2", "SWAP3", "SWAP16", "POP", "ADD", "MUL", "EQ", "AND", "OR", "XOR",
+            "SUB", "ISZERO", "LT", "GT", "SLT", "SGT", "NOT"}
+    windows = [p for p in PATTERNS if all(isinstance(x, str) and x in pure for x in p)]
+    for _ in range(extra):
+        w = []
+        for _ in range(rnd.randrange(1, 4)):
+            w += rnd.choice(windows)
+        w.insert(rnd.randrange(len(w) + 1), rnd.choice(sorted(pure - {"SWAP16"})))
+        windows.append(w)
+    n = 0
+    for w in windows:
+        vals = [rnd.choice([0, 1, 2, 3, 255, 7]) for _ in range(24)]
+        pre = []
+        for v in vals:
+            pre += ["PUSH1", v]
+        post = []
+        for i in range(4):
+            post += ["PUSH1", 32 * i, "MSTORE"]
+        post += ["PUSH1", 128, "PUSH1", 0, "RETURN"]
+        prog = pre + list(w) + post
+        opt = copy.deepcopy(prog)
+        try:
+            optimize_assembly(opt)
+        except Exception as e:  # noqa
+            return n, {"assembly": show(prog), "error": f"{type(e).__name__}: {e}"}
+        outs = []
+        for a in (prog, opt):
+            code = assembly_to_evm(a)[0]
+            addr = chain.set_code(None, code)
+            r = chain.call(addr, b"")
+            outs.append((r.ok, r.out.hex()))
+        n += 1
+        if outs[0] != outs[1]:
+            return n, {"assembly": show(prog), "optimized_assembly": show(opt), "unoptimized_result": outs[0],
+                       "optimized_result": outs[1]}
+    return n, None
